@@ -194,7 +194,8 @@ fn snapshot(dom: &RcDom, handles: &[Handle], all_roots: bool) -> String {
             Some(Err(())) => found.push(format!("U:h{}:dangling", i)),
             Some(Ok(p)) => {
                 if !p.children.borrow().iter().any(|c| Rc::ptr_eq(c, h)) {
-                    found.push(format!("U:h{}", i));
+                    let n = ids.name(&p);
+                    found.push(format!("U:h{}:{}", i, if n == "-" { "anon".to_string() } else { format!("h{}", n) }));
                 }
             },
         }
